@@ -27,18 +27,9 @@ def cmdCommonPoint (toks : List String) : String :=
   | none => "bad-op"
   | some us =>
     if us.isEmpty then "bad-op" else
-    match us.mapM (fun u => u.2.toOrigin?) with
+    match commonPointAssembly us with
     | none => "irrational-origin"
-    | some origins0 =>
-      let origins := (origins0.zip (List.range origins0.length)).map fun p => { p.1 with id := p.2 }
-      let c := commonOrigin origins
-      -- the declaration that produced the chosen origin
-      let oc : OriginDecl := match us[c.id]? with
-        | some u => u.2
-        | none => none
-      let disp := (us.zip origins).filterMap fun p => dispUnitMag oc p.1.2 c p.2
-      let m := commonPointMag (us.map (·.1)) disp
-      s!"mag={magKey m} opos={c.pos.num}/{c.pos.den} onative={c.native}"
+    | some (m, c, _) => s!"mag={magKey m} opos={c.pos.num}/{c.pos.den} onative={c.native}"
 
 def dispatchC10 : List String → Option String
   | "commonpoint" :: args => some (cmdCommonPoint args)
